@@ -2,10 +2,10 @@
 Driver/C10 — runs the executable models of the in-memory and on-disk caches on protocol lines.
 
   begin mem|memc max=<n> bytes=<n>|none policy=lru|lfu|fifo|random|ttl dttl=long|short
-  begin disk dttl=long|short
+  begin disk|diskc dttl=long|short
   put <key> <hex> ev=auto|-|k1,k2,…        putttl <key> <hex> long|short ev=…
   get <key>   contains <key>   remove <key>   clear   size   stats   reopen (disk only)
-  cleanup (memc only: one tick of the task `new_with_cleanup` spawns)
+  cleanup (memc / diskc only: one tick of the task `new_with_cleanup` / `new_with_background_tasks` spawns)
   validate mem <max> <bytes|none> <cleanup_zero 0|1>
   validate disk <max_files> <bytes|none> <cleanup_zero> <sync_zero> <use_subdirs> <levels>
 `stats` answers `<entries> <bytes> <get_count> <hit_count> <miss_count>` (Model/CacheExt).
@@ -27,7 +27,7 @@ inductive St where
   | none
   /-- `task`: created by `new_with_cleanup` -/
   | mem (cfg : MemCache.Config) (x : Mem.XState) (task : Bool)
-  | disk (cfg : DiskCache.Config) (x : Disk.XState)
+  | disk (cfg : DiskCache.Config) (x : Disk.XState) (task : Bool)
 
 def kv (pre : String) (t : String) : Option String :=
   if t.startsWith pre then some (t.drop pre.length).toString else none
@@ -92,7 +92,11 @@ def handle (st : St) (toks : List String) : St × String :=
     | _, _, _, _ => (st, "bad-op")
   | ["begin", "disk", dt] =>
     match (kv "dttl=" dt).bind parseClass with
-    | some dt => (.disk { defaultShort := dt } Disk.xinit, "ok")
+    | some dt => (.disk { defaultShort := dt } Disk.xinit false, "ok")
+    | none => (st, "bad-op")
+  | ["begin", "diskc", dt] =>
+    match (kv "dttl=" dt).bind parseClass with
+    | some dt => (.disk { defaultShort := dt } Disk.xinit true, "ok")
     | none => (st, "bad-op")
   | ["validate", "mem", mx, b, cz] =>
     match mx.toNat?, parseBytes b, parseFlag cz with
@@ -136,10 +140,10 @@ def handle (st : St) (toks : List String) : St × String :=
     | ["cleanup"] =>
       if task then (.mem cfg (Mem.xstep cfg x .cleanup).1 task, "ok") else (st, "bad-op")
     | _ => (st, "bad-op")
-  | .disk cfg x =>
+  | .disk cfg x task =>
     let go (op : DiskCache.Op) : St × String :=
-      let (x', o) := Disk.xstep cfg x op
-      (.disk cfg x', match o with
+      let (x', o) := Disk.xstep cfg x (.base op)
+      (.disk cfg x' task, match o with
         | .base .unit => "ok"
         | .base (.got .miss) => "none"
         | .base (.got (.hit v)) => "val " ++ showVal v
@@ -164,6 +168,8 @@ def handle (st : St) (toks : List String) : St × String :=
     | ["size"] => go .size
     | ["stats"] => go .stats
     | ["reopen"] => go .reopen
+    | ["cleanup"] =>
+      if task then (.disk cfg (Disk.xstep cfg x .cleanup).1 task, "ok") else (st, "bad-op")
     | _ => (st, "bad-op")
 
 def main : IO Unit := do
